@@ -386,6 +386,12 @@ func (h *handler) processUnaryRpc(
 		if !ok {
 			st = status.FromContextError(appErr)
 		}
+		if st.Code() == codes.OK {
+			// We know an error *did* occur, so re-write (only) the code
+			stpb := st.Proto()
+			stpb.Code = int32(codes.Internal)
+			st = status.FromProto(stpb)
+		}
 		respStatus = &goatorepo.ResponseStatus{
 			Code:    st.Proto().GetCode(),
 			Message: st.Proto().GetMessage(),
